@@ -82,10 +82,10 @@ Lemma fresh_in ch b k b0 : In b0 (fresh ch b k) -> exists n, In n (krange k) /\ 
 Proof. unfold fresh. intros H. apply in_map_iff in H. destruct H as (n & E & Hn). eauto. Qed.
 
 (* ---------- the chain ---------- *)
-Lemma full_of_tx ch n t :
-  chain_wf ch -> In t (cb_txs (ch n)) -> full ch n (x_idx t) = x_logs t.
+Lemma find_ctx_of_tx ch n t :
+  chain_wf ch -> In t (cb_txs (ch n)) -> find_ctx ch n (x_idx t) = Some t.
 Proof.
-  intros W Hin. destruct (W n) as [ND _]. unfold full.
+  intros W Hin. destruct (W n) as [ND _]. unfold find_ctx.
   induction (cb_txs (ch n)) as [|u r IH]; simpl in *; [contradiction|].
   inversion ND; subst. destruct Hin as [->|Hin].
   - rewrite N.eqb_refl. reflexivity.
@@ -94,46 +94,85 @@ Proof.
     + apply IH; auto.
 Qed.
 
+Lemma full_of_tx ch n t :
+  chain_wf ch -> In t (cb_txs (ch n)) -> full ch n (x_idx t) = x_logs t.
+Proof. intros W H. unfold full. rewrite (find_ctx_of_tx ch n t W H). reflexivity. Qed.
+
+Lemma ftr_of_tx ch n t :
+  chain_wf ch -> In t (cb_txs (ch n)) -> ftr ch n (x_idx t) = x_traces t.
+Proof. intros W H. unfold ftr. rewrite (find_ctx_of_tx ch n t W H). reflexivity. Qed.
+
 Lemma full_nodup ch n i : chain_wf ch -> NoDup (idxs (full ch n i)).
 Proof.
-  intros W. destruct (W n) as [_ H]. unfold full.
+  intros W. destruct (W n) as [_ H]. unfold full, find_ctx.
   destruct (find _ (cb_txs (ch n))) as [t|] eqn:F; [|constructor].
   apply find_some in F. apply H. tauto.
 Qed.
 
+Lemma find_ctx_in ch n i t : find_ctx ch n i = Some t -> In t (cb_txs (ch n)) /\ x_idx t = i.
+Proof. unfold find_ctx. intros F. apply find_some in F. split; [tauto|lia]. Qed.
+
 Lemma full_in_tx ch n i l :
   In l (full ch n i) -> exists t, In t (cb_txs (ch n)) /\ x_idx t = i /\ In l (x_logs t).
 Proof.
-  unfold full. destruct (find _ (cb_txs (ch n))) as [t|] eqn:F; [|contradiction].
-  apply find_some in F. intros H. exists t. repeat split; try tauto. lia.
+  unfold full. destruct (find_ctx ch n i) as [t|] eqn:F; [|contradiction].
+  destruct (find_ctx_in _ _ _ _ F) as [F1 F2]. intros Hl. exists t. auto.
 Qed.
 
-Lemma caller_ops_ok ch x f n op :
-  chain_wf ch -> In op (caller_ops ch x f n) -> op_ok ch n op.
+Lemma stage1_ops_ok ch x f n op :
+  chain_wf ch -> In op (stage1_ops ch x f n) -> op_ok ch n op.
 Proof.
   intros W Hin. destruct x; simpl in Hin; [contradiction| |].
   - apply in_flat_map in Hin. destruct Hin as (t & Ht & Hop).
     destruct (filter (matches f) (x_logs t)) as [|l0 ls] eqn:F; [contradiction|].
-    destruct Hop as [<-|[]]. split; [|reflexivity]. split; simpl.
+    destruct Hop as [<-|[]]. split; [|split; [reflexivity|exact I]]. split; simpl.
     + rewrite (full_of_tx ch n t W Ht). rewrite <- F. intros l Hl. apply filter_In in Hl. tauto.
     + discriminate.
-  - apply in_map_iff in Hin. destruct Hin as (t & <- & Ht). split; [|reflexivity]. split; simpl.
+  - apply in_map_iff in Hin. destruct Hin as (t & <- & Ht). split; [|split; [reflexivity|exact I]]. split; simpl.
     + rewrite (full_of_tx ch n t W Ht). apply incl_refl.
     + intros _. rewrite (full_of_tx ch n t W Ht). reflexivity.
 Qed.
 
-Lemma caller_ops_complete ch x f n i l :
-  chain_wf ch -> In l (full ch n i) -> want x f l = true ->
-  exists op, In op (caller_ops ch x f n) /\ op_tx op = i /\ In l (op_logs op).
+Lemma trace_ops_ok ch n op : chain_wf ch -> In op (trace_ops ch n) -> op_ok ch n op.
 Proof.
-  intros W Hl Hw. destruct (full_in_tx _ _ _ _ Hl) as (t & Ht & Ei & Hlt).
-  destruct x; simpl in *; [discriminate| |].
-  - assert (Hf : In l (filter (matches f) (x_logs t))) by (apply filter_In; auto).
-    destruct (filter (matches f) (x_logs t)) as [|l0 ls] eqn:F; [contradiction|].
-    exists (AGroup (cb_hash (ch n)) (x_idx t) (x_hash t) (l0 :: ls)). simpl. repeat split; auto.
-    apply in_flat_map. exists t. split; auto. rewrite F. left; reflexivity.
-  - exists (AReceipt (cb_hash (ch n)) (x_idx t) (x_hash t) 1 (x_logs t)). simpl. repeat split; auto.
-    apply in_map_iff. exists t. auto.
+  intros W Hin. unfold trace_ops in Hin. apply in_flat_map in Hin. destruct Hin as (t & Ht & Hop).
+  destruct (x_traces t) as [|a tas] eqn:E; [contradiction|]. destruct Hop as [<-|[]].
+  split; [|split; [reflexivity|]].
+  - split; simpl; [intros l []|discriminate].
+  - simpl. rewrite (ftr_of_tx ch n t W Ht). auto.
+Qed.
+
+Lemma caller_ops_ok ch x t f n op :
+  chain_wf ch -> In op (caller_ops ch x t f n) -> op_ok ch n op.
+Proof.
+  intros W Hin. unfold caller_ops in Hin. apply in_app_or in Hin. destruct Hin as [Hin|Hin].
+  - eapply stage1_ops_ok; eauto.
+  - destruct t; [eapply trace_ops_ok; eauto|contradiction].
+Qed.
+
+Lemma caller_ops_complete ch x t f n i l :
+  chain_wf ch -> In l (full ch n i) -> want x f l = true ->
+  exists op, In op (caller_ops ch x t f n) /\ op_tx op = i /\ In l (op_logs op).
+Proof.
+  intros W Hl Hw. destruct (full_in_tx _ _ _ _ Hl) as (tx0 & Ht & Ei & Hlt).
+  unfold caller_ops. destruct x; simpl in *; [discriminate| |].
+  - assert (Hf : In l (filter (matches f) (x_logs tx0))) by (apply filter_In; auto).
+    destruct (filter (matches f) (x_logs tx0)) as [|l0 ls] eqn:F; [contradiction|].
+    exists (AGroup (cb_hash (ch n)) (x_idx tx0) (x_hash tx0) (l0 :: ls)). simpl. repeat split; auto.
+    apply in_or_app. left. apply in_flat_map. exists tx0. split; auto. rewrite F. left; reflexivity.
+  - exists (AReceipt (cb_hash (ch n)) (x_idx tx0) (x_hash tx0) 1 (x_logs tx0)). simpl. repeat split; auto.
+    apply in_or_app. left. apply in_map_iff. exists tx0. auto.
+Qed.
+
+(* the caller's trace request brings the traces of every transaction that has any *)
+Lemma trace_ops_complete ch n i :
+  chain_wf ch -> ftr ch n i <> [] ->
+  exists bh th, In (ATraces bh i th (ftr ch n i)) (trace_ops ch n).
+Proof.
+  intros W Hne. unfold ftr in *. destruct (find_ctx ch n i) as [t|] eqn:F; [|congruence].
+  destruct (find_ctx_in _ _ _ _ F) as [Ht Ei]. exists (cb_hash (ch n)), (x_hash t).
+  unfold trace_ops. apply in_flat_map. exists t. split; auto.
+  destruct (x_traces t) as [|a r] eqn:E; [congruence|]. left. rewrite Ei. reflexivity.
 Qed.
 
 Lemma fresh_blk_wf ch b n : chain_wf ch -> wf_blk (fresh_blk ch b n).
@@ -151,57 +190,71 @@ Proof.
   apply find_some in F. destruct F as [F _]. apply in_map_iff in F. destruct F as (u & <- & _). reflexivity.
 Qed.
 
+Lemma fresh_blk_traces ch b n i : traces_of (fresh_blk ch b n) i = [].
+Proof.
+  unfold traces_of, find_tx. destruct b as [[|]|]; simpl; auto.
+  destruct (find _ _) as [t|] eqn:F; auto.
+  apply find_some in F. destruct F as [F _]. apply in_map_iff in F. destruct F as (u & <- & _). reflexivity.
+Qed.
+
 Lemma fresh_blk_hdr ch k n :
   b_num (fresh_blk ch (Some k) n) = n /\ b_hash (fresh_blk ch (Some k) n) = cb_hash (ch n).
 Proof. destruct k; simpl; auto. Qed.
 
-(* ---------- the uncached client, block by block ---------- *)
-Lemma attach_ops_map n ops : forall bs,
+(* ---------- a sequence of (block, operation) pairs, block by block ---------- *)
+Definition ops_at (ps : list (N * aop)) (n : N) : list aop :=
+  map snd (filter (fun p => fst p =? n) ps).
+
+Lemma ops_at_app a b n : ops_at (a ++ b) n = ops_at a n ++ ops_at b n.
+Proof. unfold ops_at. rewrite filter_app, map_app. reflexivity. Qed.
+
+Lemma attach_pairs_map ps : forall bs,
   NoDup (map b_num bs) ->
-  attach_ops n ops bs = map (fun b => if b_num b =? n then a_run b ops else b) bs.
+  attach_pairs ps bs = map (fun b => a_run b (ops_at ps (b_num b))) bs.
 Proof.
-  induction ops as [|op r IH]; intros bs ND; simpl.
-  - symmetry. apply map_id_ext. intros b _. destruct (b_num b =? n); reflexivity.
-  - unfold attach_ops in *. simpl. rewrite blks_apply_map by auto. rewrite IH.
-    + rewrite map_map. apply map_ext. intros b.
-      destruct (b_num b =? n) eqn:E.
-      * destruct (a_step_hdr b op) as (E1 & _). rewrite E1, E. reflexivity.
-      * rewrite E. reflexivity.
-    + rewrite map_map. erewrite map_ext; [exact ND|].
-      intros b. simpl. destruct (b_num b =? n); auto. destruct (a_step_hdr b op); auto.
-Qed.
-
-Definition memN (n : N) (l : list N) : bool := existsb (N.eqb n) l.
-
-Lemma attach_all_fold (cops : N -> list aop) ns : forall bs,
-  NoDup (map b_num bs) -> NoDup ns ->
-  fold_left (fun bs n => attach_ops n (cops n) bs) ns bs
-  = map (fun b => if memN (b_num b) ns then a_run b (cops (b_num b)) else b) bs.
-Proof.
-  induction ns as [|n r IH]; intros bs ND NDn; simpl.
+  induction ps as [|p r IH]; intros bs ND; simpl.
   - symmetry. apply map_id_ext. auto.
-  - inversion NDn; subst. rewrite attach_ops_map by auto. rewrite IH; auto.
-    + rewrite map_map. apply map_ext. intros b. destruct (b_num b =? n) eqn:E.
-      * destruct (a_run_hdr (cops n) b) as [E1 _]. rewrite E1.
-        assert (En : b_num b = n) by lia. rewrite En. simpl.
-        replace (memN n r) with false; auto.
-        symmetry. apply not_true_is_false. intros Hm. apply existsb_exists in Hm.
-        destruct Hm as (y & Hy & Ey). apply H1. replace n with y by lia. auto.
+  - unfold attach_pairs in *. simpl. rewrite blks_apply_map by auto. rewrite IH.
+    + rewrite map_map. apply map_ext. intros b. unfold ops_at. simpl.
+      rewrite (N.eqb_sym (fst p) (b_num b)).
+      destruct (b_num b =? fst p) eqn:E.
+      * destruct (a_step_hdr b (snd p)) as (E1 & _). rewrite E1. reflexivity.
       * reflexivity.
     + rewrite map_map. erewrite map_ext; [exact ND|].
-      intros b. simpl. destruct (b_num b =? n); auto. destruct (a_run_hdr (cops n) b); auto.
+      intros b. simpl. destruct (b_num b =? fst p); auto. destruct (a_step_hdr b (snd p)); auto.
 Qed.
 
-Lemma uget_map ch b x f k :
-  uget ch b x f k = map (fun b0 => a_run b0 (caller_ops ch x f (b_num b0))) (fresh ch b k).
+Lemma ops_at_single m (l : list aop) n : ops_at (map (pair m) l) n = if n =? m then l else [].
 Proof.
-  unfold uget, attach_all. rewrite attach_all_fold.
-  - apply map_ext_in. intros b0 Hin.
-    replace (memN (b_num b0) (krange k)) with true; auto.
-    symmetry. apply existsb_exists. exists (b_num b0). split; [|apply N.eqb_refl].
-    rewrite <- (fresh_nums ch b k). apply in_map. auto.
-  - rewrite fresh_nums. apply seqN_nodup.
-  - apply seqN_nodup.
+  unfold ops_at. induction l as [|o t IHt]; simpl.
+  - destruct (n =? m); reflexivity.
+  - rewrite (N.eqb_sym m n). destruct (n =? m) eqn:En; simpl; [f_equal|]; exact IHt.
+Qed.
+
+Lemma ops_at_pairs_of (F : N -> list aop) ns n :
+  NoDup ns -> ops_at (pairs_of F ns) n = if existsb (N.eqb n) ns then F n else [].
+Proof.
+  induction ns as [|m r IH]; intros ND; simpl; auto.
+  inversion ND; subst. unfold pairs_of in *. simpl. rewrite ops_at_app, IH by auto.
+  rewrite ops_at_single. destruct (n =? m) eqn:En; simpl; auto.
+  replace m with n by lia.
+  replace (existsb (N.eqb n) r) with false; [apply app_nil_r|].
+  symmetry. apply not_true_is_false. intros Hx. apply existsb_exists in Hx. destruct Hx as (y & Hy & Ey).
+  apply H1. replace m with y by lia. auto.
+Qed.
+
+Lemma in_krange_existsb k n : In n (krange k) -> existsb (N.eqb n) (krange k) = true.
+Proof. intros H. apply existsb_exists. exists n. split; auto. apply N.eqb_refl. Qed.
+
+Lemma uget_map ch b x t f k :
+  uget ch b x t f k = map (fun b0 => a_run b0 (caller_ops ch x t f (b_num b0))) (fresh ch b k).
+Proof.
+  unfold uget. rewrite attach_pairs_map by (rewrite fresh_nums; apply seqN_nodup).
+  apply map_ext_in. intros b0 Hin. f_equal.
+  assert (Hn : In (b_num b0) (krange k)) by (rewrite <- (fresh_nums ch b k); apply in_map; auto).
+  rewrite ops_at_app, ops_at_pairs_of by apply seqN_nodup. rewrite (in_krange_existsb _ _ Hn).
+  unfold caller_ops. f_equal. destruct t; [|reflexivity].
+  rewrite ops_at_pairs_of by apply seqN_nodup. rewrite (in_krange_existsb _ _ Hn). reflexivity.
 Qed.
 
 (* ---------- the invariant of the fine-grained system ---------- *)
@@ -334,12 +387,13 @@ Lemma greach_inv ch b mx s tr : greach ch b mx s tr -> ginv ch b s tr.
 Proof. induction 1; [apply ginv_init|eapply ginv_step; eauto]. Qed.
 
 (* ---------- the caller's view ---------- *)
-Lemma view_of_ops ch k x f n ops :
+Lemma view_of_ops ch k x t f n ops :
   chain_wf ch ->
   (forall op, In op ops -> op_ok ch n op) ->
-  (forall op, In op (caller_ops ch x f n) -> In op ops) ->
+  (forall op, In op (caller_ops ch x t f n) -> In op ops) ->
   let cb := a_run (fresh_blk ch (Some k) n) ops in
   b_num cb = n /\ b_hash cb = cb_hash (ch n) /\ b_time cb = b_time (fresh_blk ch (Some k) n)
+  /\ (t = true -> forall i, traces_of cb i = ftr ch n i)
   /\ forall i, NoDup (idxs (filter (want x f) (logs_of cb i)))
                /\ forall l, In l (filter (want x f) (logs_of cb i)) <-> In l (filter (want x f) (full ch n i)).
 Proof.
@@ -348,12 +402,19 @@ Proof.
   destruct (fresh_blk_hdr ch k n) as [F1 F2].
   split; [unfold cb; congruence|]. split.
   { apply a_run_hash; auto. intros op Hin. apply (Hok op Hin). }
-  split; [exact E2|].
+  split; [exact E2|]. split.
+  { intros -> i.
+    destruct (traces_honest (ftr ch n) ops (fresh_blk ch (Some k) n) i) as [H|[H Hno]]; auto.
+    - intros bh j th tas Hin. destruct (Hok _ Hin) as (_ & _ & Ht). exact Ht.
+    - right. apply fresh_blk_traces.
+    - unfold cb. rewrite H. destruct (ftr ch n i) as [|a r] eqn:E; auto.
+      exfalso. destruct (trace_ops_complete ch n i W) as (bh & th & Hin); [congruence|].
+      apply (Hno bh th (ftr ch n i)). apply Hall. unfold caller_ops. apply in_or_app. right. exact Hin. }
   intros i. apply (attach_projection (full ch n) (fun j => full_nodup ch n j W)).
   - apply fresh_blk_wf; auto.
   - intros j. rewrite fresh_blk_logs. intros l [].
   - apply Forall_forall. intros op Hin. apply (Hok op Hin).
-  - intros l Hl Hw. right. destruct (caller_ops_complete ch x f n i l W Hl Hw) as (op & H1 & H2 & H3).
+  - intros l Hl Hw. right. destruct (caller_ops_complete ch x t f n i l W Hl Hw) as (op & H1 & H2 & H3).
     exists op. auto.
 Qed.
 
@@ -366,38 +427,34 @@ Proof.
 Qed.
 
 (* Any interleaving of any callers on one cache, any fetch failures: for
-   every filled segment and every caller (extra request x, filter f) whose own
-   attach operations have all been performed on that segment, the segment's
-   blocks and the blocks an uncached client returns for the same request give
-   the same view. *)
+   every filled segment and every caller (extra request x, traces t, filter f)
+   whose own attach operations have all been performed on that segment, the
+   segment's blocks and the blocks an uncached client returns for the same
+   request give the same view. *)
 Lemma cached_equiv_uncached ch b mx s tr :
   chain_wf ch -> greach ch b mx s tr ->
-  forall sid sg bs x f,
+  forall sid sg bs x t f,
     nth_error (c_heap (sy_cache s)) sid = Some sg -> sg_data sg = Some bs ->
-    (forall n op, In n (krange (sg_key sg)) -> In op (caller_ops ch x f n) -> In (GAttach sid n op) tr) ->
-    Forall2 (same_view x f) bs (uget ch (Some b) x f (sg_key sg)).
+    (forall n op, In n (krange (sg_key sg)) -> In op (caller_ops ch x t f n) -> In (GAttach sid n op) tr) ->
+    Forall2 (same_view x t f) bs (uget ch (Some b) x t f (sg_key sg)).
 Proof.
-  intros W R sid sg bs x f N0 Dd Hall.
+  intros W R sid sg bs x t f N0 Dd Hall.
   pose proof (greach_inv _ _ _ _ _ R) as [Gn Gd Gk].
   specialize (Gd _ _ N0). rewrite Dd in Gd. rewrite Gd, uget_map.
   apply Forall2_map_same. intros b0 Hin.
   destruct (fresh_in _ _ _ _ Hin) as (n & Hn & ->).
   destruct (fresh_blk_hdr ch b n) as [F1 _]. rewrite F1.
-  destruct (view_of_ops ch b x f n (ops_for sid n tr) W) as (C1 & C2 & C3 & C4).
+  destruct (view_of_ops ch b x t f n (ops_for sid n tr) W) as (C1 & C2 & C3 & C5 & C4).
   { intros op Hop. apply ops_for_from in Hop. eauto. }
   { intros op Hop. apply ops_for_in. auto. }
-  destruct (view_of_ops ch b x f n (caller_ops ch x f n) W) as (U1 & U2 & U3 & U4).
+  destruct (view_of_ops ch b x t f n (caller_ops ch x t f n) W) as (U1 & U2 & U3 & U5 & U4).
   { intros op Hop. eapply caller_ops_ok; eauto. }
   { auto. }
   unfold same_view. repeat split; try congruence.
+  - intros Ht i. rewrite (C5 Ht), (U5 Ht). reflexivity.
   - apply C4.
   - apply U4.
   - intros Hl. apply U4. apply C4. auto.
   - intros Hl. apply C4. apply U4. auto.
 Qed.
 
-(* ---------- the sequential Get is a run of the fine-grained system ---------- *)
-(* (used to read the correspondence run as a statement about the same system) *)
-Lemma attach_ops_blks n ops : forall bs,
-  attach_ops n ops bs = fold_left (fun bs op => blks_apply n (fun b => a_step b op) bs) ops bs.
-Proof. reflexivity. Qed.
